@@ -68,6 +68,8 @@ def rule_partition(run, F, cfg):
                 d["key"] = v
             if re.search(r"::eq\(", e) or re.search(r"PartialEq.*::eq\(", e):
                 d["simple"] = v
+            elif re.search(r"::ne\(", e) and v in (0, 1):
+                d["simple"] = 1 - v
             if re.search(r"^discr\(std::collections::HashMap::get_mut\(", e):
                 d["bucket"] = v
         stores = [s for s in (_store_of(f, t) for b, t in path_calls(f, p)) if s]
@@ -89,9 +91,13 @@ def rule_partition(run, F, cfg):
         want = {"class": {"simple_class_rules", "complex_class_rules"},
                 "id": {"simple_id_rules", "complex_id_rules"}, "misc": {"misc_generic_selectors"}}[kind]
         ok = len(stores) == 1 and stores[0] in want
+        if ok and kind in ("class", "id") and d.get("simple") in (0, 1):
+            # the whole selector IS the key  <=>  simple store (looked up by bare name and re-prefixed)
+            ok = stores[0].startswith("simple_") == (d["simple"] == 1)
         run.ob("C17.1.partition", label, ok,
                f"add_generic_filter path [{label}] inserts the rule into {stores or 'NO store'}; required: "
-               f"exactly one of {sorted(want)} (every generic selector must be reachable through the "
+               f"exactly one of {sorted(want)} — the simple store iff the extracted key equals the whole selector — "
+               f"(every generic selector must be reachable through the "
                f"class/id lookup or the per-site resources, never neither)",
                site=f.loc(p.blocks[-1]), config=cfg,
                detail="a `.`/`#` selector whose key cannot be extracted is silently dropped" if not stores else "")
